@@ -3,9 +3,9 @@ import RgVerif.Model.Gitignore
 `GitignoreBuilder::add`: how an ignore FILE becomes the lines handed to `add_line`.
 `BufReader::lines()`: chunks up to and including each `\n`; a chunk must be valid UTF-8 (`str::from_utf8`), otherwise
 the iterator yields an `InvalidData` error: that line is lost, the loop `continue`s with the next one (since 234ccee;
-before that `add` stopped reading there).  A trailing `\n`, and a `\r` directly before it, are removed.  On the line
-with index 0 one leading U+FEFF is dropped (since e983cb6, like git's `skip_utf8_bom`).  A `\r` at the end of a file
-that does not end in `\n` stays.
+before that `add` stopped reading there).  One trailing `\n`, then one trailing `\r`, are removed from every line, the last one included (since 3df4263;
+`BufRead::lines` left the `\r` of a last line without `\n`).  On the first line one leading U+FEFF is dropped (since
+e983cb6, like git's `skip_utf8_bom`).  Up to decoding this is `GitSpec.readLines`.
 -/
 namespace RgVerif.Gitignore
 open RgVerif
@@ -51,12 +51,11 @@ def readChunks : Bytes → Bytes → List Bytes
   | [], cur => if cur.isEmpty then [] else [cur]
   | b :: rest, cur => if b == 10 then (cur ++ [10]) :: readChunks rest [] else readChunks rest (cur ++ [b])
 
-/-- `lines()`: remove the `\n` and a `\r` directly before it -/
+/-- the line without its terminator (3df4263, `read_line` + two `strip_suffix`): one trailing `\n` if present, then
+one trailing `\r` if present — also when the file ends without `\n` (like git, which supplies the missing line feed) -/
 def stripEol (l : List Nat) : List Nat :=
-  if l.getLast? == some 10 then
-    let l := l.dropLast
-    if l.getLast? == some 13 then l.dropLast else l
-  else l
+  let l := if l.getLast? == some 10 then l.dropLast else l
+  if l.getLast? == some 13 then l.dropLast else l
 
 /-- `line.strip_prefix('\u{FEFF}')` on the line with index 0 -/
 def stripBomAt (i : Nat) (l : List Nat) : List Nat :=
